@@ -109,7 +109,7 @@ theorem insertAll_spec : ∀ (l set : List Nat), l.Nodup → set.Nodup → (∀ 
       · exact Or.inr (Or.inr h)
 
 theorem collect_spec (p : URow → Bool) : ∀ (rows : List URow) (acc : List Nat),
-    rows.Pairwise (fun r r' => r.cps.hi < r'.cps.lo) →
+    rows.Pairwise (fun r r' => r.cps.hi < r'.cps.lo ∨ r'.cps.hi < r.cps.lo) →
     (∀ r ∈ rows, r.cps.lo ≤ r.cps.hi) → acc.Nodup →
     (∀ c ∈ acc, ∀ r ∈ rows, r.cps.eqCp c ≠ true) →
     ∃ set, collect p rows acc = some set ∧ set.Nodup ∧
@@ -318,8 +318,23 @@ theorem codepointsVector_spec (set : List Nat) (hs : set.Nodup) :
 theorem set_table_exact (p : URow → Bool) (rows : List URow) (h : WFc rows) :
     ∃ t, setTable p rows = some t ∧ sortedTable t = true ∧
       ∀ cp, memL cp t = rows.any (fun r => p r && r.cps.eqCp cp) := by
-  obtain ⟨set, h1, h2, h3⟩ := collect_spec p rows [] (WFc_pairwise rows h) (WFc_le rows h)
+  obtain ⟨set, h1, h2, h3⟩ := collect_spec p rows [] ((WFc_pairwise rows h).imp Or.inl) (WFc_le rows h)
     List.nodup_nil (by intro c hc; cases hc)
+  obtain ⟨c1, c2⟩ := codepointsVector_spec set h2
+  refine ⟨codepointsVector set, by simp [setTable, h1], sortedTable_of_SortedP _ c1, ?_⟩
+  intro cp
+  rw [Bool.eq_iff_iff, c2 cp, h3 cp]
+  simp
+
+/-- property files (Scripts, DerivedJoiningType, PropList, …): the lines may come in ANY order (UAX #44 gives line
+order no meaning); it suffices that they are pairwise disjoint and non-empty.  The HashSet + sort + run compression
+still yields a searchable table denoting exactly the selected lines. -/
+theorem set_table_exact_unordered (p : URow → Bool) (rows : List URow)
+    (hd : rows.Pairwise (fun r r' => r.cps.hi < r'.cps.lo ∨ r'.cps.hi < r.cps.lo))
+    (hle : ∀ r ∈ rows, r.cps.lo ≤ r.cps.hi) :
+    ∃ t, setTable p rows = some t ∧ sortedTable t = true ∧
+      ∀ cp, memL cp t = rows.any (fun r => p r && r.cps.eqCp cp) := by
+  obtain ⟨set, h1, h2, h3⟩ := collect_spec p rows [] hd hle List.nodup_nil (by intro c hc; cases hc)
   obtain ⟨c1, c2⟩ := codepointsVector_spec set h2
   refine ⟨codepointsVector set, by simp [setTable, h1], sortedTable_of_SortedP _ c1, ?_⟩
   intro cp
